@@ -305,6 +305,30 @@ model_queries!(mq_u16_16, z_u16_16, 16);
 model_queries!(mq_u32_24, z_u32_24, 32);
 model_queries!(mq_u32_32, z_u32_32, 32);
 
+/// whatever a constructor accepted is also used for coding: a few symbols decoded from arbitrary words and encoded back
+/// with the stack coder, and decoded with the range decoder
+macro_rules! coders_on_top {
+    ($m:expr, $q:expr) => {{
+        let words: Vec<u16> = vec![$q, $q ^ 0x5555, $q.rotate_left(3), 7];
+        if let Some(Ok(mut ans)) = tol!(AnsCoder::<u16, u32>::from_binary(words.clone())) {
+            let mut got = Vec::new();
+            for _ in 0..3 {
+                if let Some(Ok(s)) = tol!(ans.decode_symbol(&$m)) {
+                    got.push(s);
+                }
+            }
+            for s in got.iter().rev() {
+                let _ = tol!(ans.encode_symbol(*s, &$m));
+            }
+        }
+        if let Some(Ok(mut dec)) = tol!(RangeDecoder::<u16, u32, _>::from_compressed(words)) {
+            for _ in 0..3 {
+                let _ = tol!(dec.decode_symbol(&$m));
+            }
+        }
+    }};
+}
+
 /// hostile constructor input, then queries on whatever was built, and every conversion
 fn hostile_models(src: &mut Src, ctx: &mut Ctx) -> CaseResult {
     ctx.label("script:hostile_ctor_then_conversions");
@@ -315,7 +339,19 @@ fn hostile_models(src: &mut Src, ctx: &mut Ctx) -> CaseResult {
     let q = src.u16();
     match src.below(6) {
         0 => {
-            if let Some(Ok(m)) = tol!(ContiguousCategoricalEntropyModel::<u16, _, 12>::from_floating_point_probabilities_fast(&tab, None)) {
+            // an explicit, plausible normalisation in half of the cases (so that the entry checks, not the sum, have to
+            // reject NaN / infinite / negative entries)
+            let norm: Option<f64> = if q % 2 == 0 {
+                None
+            } else {
+                let r: f64 = tab.iter().copied().filter(|x| x.is_finite() && *x > 0.0 && *x < 1e300).sum();
+                Some(if r > 0.0 && r.is_finite() { r } else { 1.0 })
+            };
+            if let Some(Ok(m)) = tol!(ContiguousCategoricalEntropyModel::<u16, _, 12>::from_floating_point_probabilities_fast(&tab, norm)) {
+                for s in 0..tab.len() + 1 {
+                    let _ = tol!(m.left_cumulative_and_probability(s));
+                }
+                coders_on_top!(m, q);
                 let _ = tol!(m.quantile_function(q));
                 let _ = tol!(m.left_cumulative_and_probability(q as usize));
                 let _ = tol!(m.to_lookup_decoder_model().quantile_function(q));
@@ -328,6 +364,7 @@ fn hostile_models(src: &mut Src, ctx: &mut Ctx) -> CaseResult {
         }
         1 => {
             if let Some(Ok(m)) = tol!(ContiguousCategoricalEntropyModel::<u16, _, 12>::from_nonzero_fixed_point_probabilities(fx.iter(), infer)) {
+                coders_on_top!(m, q);
                 let _ = tol!(m.quantile_function(q));
                 let _ = tol!(m.left_cumulative_and_probability(q as usize % (fx.len() + 2)));
                 let _ = tol!(m.to_lookup_decoder_model().quantile_function(q));
@@ -361,6 +398,7 @@ fn hostile_models(src: &mut Src, ctx: &mut Ctx) -> CaseResult {
         }
         4 => {
             if let Some(Ok(m)) = tol!(LazyContiguousCategoricalEntropyModel::<u16, f64, _, 12>::from_floating_point_probabilities_fast(&tab[..], None)) {
+                coders_on_top!(m, q);
                 let _ = tol!(m.quantile_function(q));
                 let _ = tol!(m.left_cumulative_and_probability(q as usize % (tab.len() + 2)));
             }
